@@ -487,12 +487,17 @@ impl<'a> Unquote<'a> {
     pub fn to_cow(&self) -> Cow<'a, str> {
         let str_ref = self.inner.as_str();
         if self.is_quoted() {
-            if str_ref.find('\\').is_some() {
-                Cow::from(self.to_string())
-            } else {
-                // String is quoted but has no escapes.
-                Cow::from(&str_ref[1..str_ref.len() - 1])
+            if self.state == UnquoteState::NotStarted {
+                // Borrow only when the string is properly closed, has no
+                // escapes and nothing follows the closing quote.
+                let body = &str_ref[1..];
+                let closed_at_end =
+                    body.find('"').map_or(false, |i| i + 1 == body.len());
+                if closed_at_end && body.find('\\').is_none() {
+                    return Cow::from(&body[..body.len() - 1]);
+                }
             }
+            Cow::from(self.to_string())
         } else {
             Cow::from(str_ref)
         }
